@@ -195,11 +195,16 @@ func (obj *Package) Unuse(pkg *Package) {
 			obj.mu.Unlock()
 			pkg.mu.Unlock()
 		}()
+		found := false
 		for i, p := range obj.Uses {
 			if pkg.Name == p.Name {
 				obj.Uses = append(obj.Uses[:i], obj.Uses[i+1:]...)
+				found = true
 				break
 			}
+		}
+		if !found {
+			return // not used: nothing to take away
 		}
 		for i, p := range pkg.Users {
 			if obj.Name == p.Name {
